@@ -435,3 +435,57 @@ func (u *unit) builtin(fn *ssa.Function, b *ssa.Builtin, ins ssa.CallInstruction
 		}
 	}
 }
+
+// ArgEscapes reports whether a callee of ins may keep (K) or hand back (RA/RC)
+// a reference into the memory of its idx-th actual (receiver first in invoke
+// mode). Builtins copy (append/copy) and never keep their operands' memory,
+// except append's first operand, which is returned.
+func (a *Analysis) ArgEscapes(ins ssa.CallInstruction, idx int) bool {
+	c := ins.Common()
+	if b, ok := c.Value.(*ssa.Builtin); ok {
+		return b.Name() == "append" && idx == 0
+	}
+	nres := c.Signature().Results().Len()
+	var sums []*Summary
+	ext := func(name string) {
+		if s := a.contractFor(name, nres); s != nil {
+			sums = append(sums, s)
+		}
+	}
+	if c.IsInvoke() && (c.Method.Pkg() == nil || core.ClassOf(c.Method.Pkg().Path()) == core.External) {
+		ext(c.Method.FullName())
+	} else {
+		callees := a.Prog.Callees(ins)
+		if sc := c.StaticCallee(); sc != nil {
+			callees = []*ssa.Function{sc}
+		}
+		for _, callee := range callees {
+			if s := a.Sum[callee]; s != nil && core.FuncClass(callee) != core.External {
+				sums = append(sums, s)
+				continue
+			}
+			name := callee.String()
+			if o := callee.Origin(); o != nil {
+				name = o.String()
+			}
+			ext(name)
+		}
+	}
+	for _, s := range sums {
+		for kk := range s.K {
+			if kk[0].Kind == RParam && kk[0].Idx == idx {
+				return true
+			}
+		}
+		for j := range s.RA {
+			for _, m := range []map[SRoot]Why{s.RA[j], s.RC[j]} {
+				for sr := range m {
+					if sr.Kind == RParam && sr.Idx == idx {
+						return true
+					}
+				}
+			}
+		}
+	}
+	return false
+}
